@@ -1,5 +1,9 @@
 import FcpptModel.Prelude.Proto
 import FcpptModel.Model.C01
+import FcpptModel.Model.C01.Stream
+import FcpptModel.Model.C01.Path
+import FcpptModel.Model.C01.Env
+import FcpptModel.Model.C15.Text
 import FcpptModel.Drv.C06
 /-!
 Driver for C01: the container / string / argument / file helpers of `Model/C01.lean`; scalar
@@ -14,7 +18,123 @@ def showOptInt : M (Option Int) → String
   | .ok none => "none"
   | .error e => e.name
 
-def payload (t : String) : Option Str := if t.startsWith "s:" then some (t.drop 2).toString.toList else none
+def hexVal (c : Char) : Option Nat :=
+  if '0' ≤ c ∧ c ≤ '9' then some (c.toNat - 48) else if 'a' ≤ c ∧ c ≤ 'f' then some (c.toNat - 87) else none
+
+def hexBytes : List Char → Option (List Nat)
+  | [] => some []
+  | a :: b :: r => do let x ← hexVal a; let y ← hexVal b; let rest ← hexBytes r; pure ((x * 16 + y) :: rest)
+  | _ => none
+
+/-- `s:<chars>` or `x:<hex bytes>` -/
+def payload (t : String) : Option Str :=
+  if t.startsWith "s:" then some (t.drop 2).toString.toList
+  else if t.startsWith "x:" then (hexBytes (t.drop 2).toString.toList).map (·.map Char.ofNat)
+  else none
+
+def hexOut (bs : List Nat) : String :=
+  "x:" ++ String.ofList (bs.flatMap fun b => [Proto.hexDigit (b / 16), Proto.hexDigit (b % 16)])
+
+def str (cs : List Nat) : String := String.ofList (cs.map Char.ofNat)
+
+/-- the stream the harness builds for a kind -/
+def mkIn (kind : String) (content : List Nat) : Option (IStream × Bool) :=
+  match kind with
+  | "fresh" | "chunk1" | "chunk2" | "file" => some ({ buf := content }, false)
+  | "eofbit" => some ({ buf := content, eof := true }, false)
+  | "failbit" => some ({ buf := content, fail := true }, false)
+  | "badbit" => some ({ buf := content, bad := true }, false)
+  | "throwend" | "throwend1" => some ({ buf := content, throwsAtEnd := true }, false)
+  | "nullbuf" => if content.isEmpty then some ({ buf := [], bad := true }, true) else none
+  | "dir" => if content.isEmpty then some ({ buf := [], throwsAtEnd := true }, false) else none     -- underflow: EISDIR
+  | _ => none
+
+def mkOut (kind : String) : Option OStream :=
+  let pre : List Nat := [97, 98]
+  match kind with
+  | "fresh" => some { content := pre }
+  | "eofbit" => some { content := pre, eof := true }
+  | "failbit" => some { content := pre, fail := true }
+  | "badbit" => some { content := pre, bad := true }
+  | "nullbuf" => some { bad := true }
+  | "file" => some {}
+  | k =>
+    if k.startsWith "throwroom" then (k.drop 9).toString.toNat?.map fun n => { room := some n, throwsWhenFull := true }
+    else if k.startsWith "room" then (k.drop 4).toString.toNat?.map fun n => { room := some n }
+    else none
+
+def showOptStr : Option (List Nat) → String
+  | some r => "some s:" ++ str r
+  | none => "none"
+
+def showOptCode : Option Nat → String
+  | some c => s!"some {c}"
+  | none => "none"
+
+/-- is_open answers of the operating system for the scratch paths (read / write) -/
+def openAnswer (mode kind : String) : Option Bool :=
+  if mode = "r" then
+    if kind ∈ ["file0", "file5", "dir", "dir2", "sub", "trailing", "symfile", "symsym", "symdir", "dot"] then some true
+    else if kind ∈ ["filetrailing", "missing", "dangling", "selfloop", "loopa", "loopb", "longname", "underfile", "underloop",
+                    "longpath", "missingparent", "emptypath"] then some false
+    else none
+  else if mode = "w" then
+    if kind = "new" then some true
+    else if kind ∈ ["dir", "symdir", "underfile", "missingparent", "longname", "selfloop", "emptypath", "trailing", "filetrailing",
+                    "longpath", "underloop"] then some false
+    else none
+  else none
+
+/-- 0 = the standard function cleared the error code -/
+def mkdirAnswer (recursive : Bool) (kind : String) : Option Nat :=
+  if kind ∈ ["new", "dir", "dir2", "sub", "trailing", "symdir", "dot"] then some 0
+  else if kind = "newnested" then some (if recursive then 0 else 2)
+  else if kind ∈ ["file0", "file5", "filetrailing", "dangling", "symfile", "symsym", "selfloop", "loopa", "loopb", "longname",
+                  "underfile", "underloop", "longpath", "emptypath", "fifo"] then some 1
+  else none
+
+/-- error code and number of entries of the (recursive) directory range -/
+def rangeAnswer (recursive : Bool) (kind : String) : Option (Nat × Nat) :=
+  match kind with
+  | "dir" | "symdir" => some (0, 0)
+  | "dir2" | "trailing" => some (0, if recursive then 5 else 4)
+  | "sub" => some (0, 1)
+  | _ =>
+    if kind ∈ ["file0", "file5", "filetrailing", "missing", "dangling", "symfile", "symsym", "selfloop", "loopa", "loopb",
+               "longname", "underfile", "underloop", "longpath", "missingparent", "emptypath", "fifo"] then some (1, 0)
+    else none
+
+/-- the environment the harness sets up -/
+def harnessEnv : List (Str × Str) :=
+  [("VERIF_C01_SET".toList, "value".toList), ("VERIF_C01_EMPTY".toList, []), ("VERIF_C01_EQ".toList, "a=b".toList)]
+
+/-- what `abi::__cxa_demangle` says about the fixed names of the generator -/
+def demangleAnswer : String → Option String
+  | "i" => some "demangled s:int"
+  | "x" => some "demangled s:long long"
+  | "" => some "empty"
+  | "_Z" | "_ZN" | "_Z1" | "St6vectorIiSaIiE" | "N3c012d3" | "3foo3bar" | "_Z1fv_" | "abc" | "-" | "__" | "9999999999a" | "N" | "S" | "I" | "T_" => some "same"
+  | "_Z1fv" => some "demangled s:f()"
+  | "N3c012d3E" => some "demangled s:c01::d3"
+  | "St6vectorIiSaIiEE" => some "demangled s:std::vector<int, std::allocator<int> >"
+  | "3foo" => some "demangled s:foo"
+  | "PKc" => some "demangled s:char const*"
+  | _ => none
+
+def clsOf : String → Option Cls
+  | "base" => some .base | "d1" => some .d1 | "d2" => some .d2 | "d3" => some .d3 | "m" => some .m | "iface" => some .iface
+  | _ => none
+
+def extractDest : String → Option Fcppt.C15.Dest
+  | "int" => some (.num ⟨4, true⟩) | "uint" => some (.num ⟨4, false⟩) | "short" => some (.num ⟨2, true⟩)
+  | "ulong" => some (.num ⟨8, false⟩) | "long" => some (.num ⟨8, true⟩)
+  | _ => none
+
+/-- `extract_from_string<std::string>`: `>> word`, then the stream must be at its end -/
+def extractString (src : List Nat) : Option (List Nat) :=
+  let (s, w) := Fcppt.C15.getWord (Fcppt.C15.IStream.ofString src)
+  let (_, c) := Fcppt.C15.peek s
+  if s.fail then none else if c.isNone then w else none
 
 def splitList (s : String) : List String := if s = "_" then [] else s.splitOn ","
 
@@ -25,7 +145,7 @@ def osAnswer : String → Option (Option Nat)
   | "file0" => some (some 0) | "file5" => some (some 5) | "file4096" => some (some 4096)
   | "symfile" => some (some 5)
   | "symsym" => some (some 5)
-  | "dir" | "missing" | "dangling" | "dot" | "emptypath" => some none
+  | "dir" | "missing" | "dangling" | "dot" | "emptypath" | "dir2" | "sub" | "trailing" | "filetrailing" | "missingparent" => some none
   -- stat fails with ELOOP / ENAMETOOLONG / ENOTDIR, or the file exists but is not a regular file: no size either
   | "selfloop" | "loopa" | "loopb" | "symdir" | "fifo" | "longname" | "underfile" | "underloop" | "longpath" => some none
   | _ => none
@@ -79,10 +199,11 @@ def handle (toks : List String) : String :=
           | .error e => e.name)
       else "bad-op"
     | _, _ => "bad-op"
-  | ["rtindex", m, i] =>
+  | ["rtindex", ty, m, i] =>
     match m.toNat?, i.toNat? with
     | some m, some i =>
-      if m ∈ [0, 1, 2, 3, 5] then
+      let lim := if ty = "u8" then 256 else if ty = "u32" then 4294967296 else if ty = "u64" then 18446744073709551616 else 0
+      if m ∈ [0, 1, 2, 3, 5] ∧ i < lim then
         (match runtimeIndex m i (fun k => s!"f {k}") "fail" with | .ok s => s | .error e => e.name)
       else "bad-op"
     | _, _ => "bad-op"
@@ -106,25 +227,193 @@ def handle (toks : List String) : String :=
         | .ok none => "none"
         | .error e => e.name)
     | none => "bad-op"
-  | ["readchars", s, count] =>
+  | ["readchars", kind, s, count] =>
     match payload s, count.toNat? with
     | some cs, some count =>
-      (match readChars (cs.map Char.toNat) count with
-        | some r => "some s:" ++ String.ofList (r.map Char.ofNat)
-        | none => "none")
+      (match mkIn kind (cs.map Char.toNat) with
+        | some (st, _) =>
+          (match readChars st count with
+            | .ok (st', r) => showOptStr r ++ " " ++ st'.bits
+            | .error e => e.name)
+        | none => "bad-op")
     | _, _ => "bad-op"
-  | ["streamtostring", s] =>
+  | ["readchars2", kind, s, c1, c2] =>
+    match payload s, c1.toNat?, c2.toNat? with
+    | some cs, some c1, some c2 =>
+      (match mkIn kind (cs.map Char.toNat) with
+        | some (st, _) =>
+          (match readChars st c1 with
+            | .ok (st1, r1) =>
+              (match readChars st1 c2 with
+                | .ok (st2, r2) => showOptStr r1 ++ " " ++ showOptStr r2 ++ " " ++ st2.bits
+                | .error e => e.name)
+            | .error e => e.name)
+        | none => "bad-op")
+    | _, _, _ => "bad-op"
+  | ["sts", kind, s] =>
     match payload s with
-    | some cs => "some s:" ++ String.ofList cs
+    | some cs =>
+      (match mkIn kind (cs.map Char.toNat) with
+        | some (st, nullbuf) => showOptStr (streamToString nullbuf st)
+        | none => "bad-op")
     | none => "bad-op"
+  | ["ioget", kind, s] =>
+    match payload s with
+    | some cs =>
+      (match mkIn kind (cs.map Char.toNat) with
+        | some (st, _) =>
+          let (st1, r1) := ioGet st
+          let (st2, r2) := ioGet st1
+          showOptCode r1 ++ " " ++ showOptCode r2 ++ " " ++ st2.bits
+        | none => "bad-op")
+    | none => "bad-op"
+  | ["iopeek", kind, s] =>
+    match payload s with
+    | some cs =>
+      (match mkIn kind (cs.map Char.toNat) with
+        | some (st, _) =>
+          let (st1, r1) := ioPeek st
+          let (st2, r2) := ioPeek st1
+          showOptCode r1 ++ " " ++ showOptCode r2 ++ " " ++ st2.bits
+        | none => "bad-op")
+    | none => "bad-op"
+  | ["ioread", ty, endian, kind, s] =>
+    let tyInfo : Option (Nat × Bool) :=
+      match ty with
+      | "u8" => some (1, false) | "u16" => some (2, false) | "u32" => some (4, false) | "i32" => some (4, true) | "u64" => some (8, false)
+      | _ => none
+    match tyInfo, payload s with
+    | some (size, signed), some cs =>
+      if endian = "big" ∨ endian = "little" then
+        (match mkIn kind (cs.map Char.toNat) with
+          | some (st, _) =>
+            let (st', r) := ioRead size signed (endian = "big") st
+            (match r with | some v => s!"some {v}" | none => "none") ++ " " ++ st'.bits
+          | none => "bad-op")
+      else "bad-op"
+    | _, _ => "bad-op"
+  | ["writechars", kind, s] =>
+    match mkOut kind, payload s with
+    | some o, some cs =>
+      let (o', r) := writeChars o (cs.map Char.toNat)
+      b01 r ++ " s:" ++ str o'.content ++ " " ++ o'.bits
+    | _, _ => "bad-op"
   | ["filesize", kind] =>
     match osAnswer kind with
     | some os => (match fileSize os with | some n => s!"some {n}" | none => "none")
     | none => "bad-op"
-  | ["rmext", s] => if (payload s).isSome then "ok" else "bad-op"
-  | ["extract", ty, s] =>
-    if ty ∈ ["int", "uint", "short", "ulong", "string"] ∧ (payload s).isSome then "ok" else "bad-op"
-  | ["dyncast", k] => if k = "d1" then "some" else if k = "d2" ∨ k = "base" then "none" else "bad-op"
+  | ["fopen", mode, kind] =>
+    let exn := mode = "rx" ∨ mode = "wx"
+    let m := if mode = "r" ∨ mode = "rx" then "r" else if mode = "w" ∨ mode = "wx" then "w" else ""
+    match openAnswer m kind with
+    | some isOpen =>
+      if exn then (match fsOpenExn isOpen with | .ok _ => "some" | .error e => e.name)
+      else (match fsOpen isOpen with | some _ => "some" | none => "none")
+    | none => "bad-op"
+  | ["mkdir", kind] =>
+    match mkdirAnswer false kind with
+    | some ec =>
+      let r := createDirectory ec
+      (if r.isSome then "error" else "none") ++ (if kind = "new" ∨ kind = "newnested" then (if ec = 0 then " made" else " not-made") else "")
+    | none => "bad-op"
+  | ["mkdirs", kind] =>
+    match mkdirAnswer true kind with
+    | some ec =>
+      let r := createDirectory ec
+      (if r.isSome then "error" else "none") ++ (if kind = "new" ∨ kind = "newnested" then (if ec = 0 then " made" else " not-made") else "")
+    | none => "bad-op"
+  | [op, opt, kind] =>
+    if op = "dirrange" ∨ op = "rdirrange" then
+      if opt ∈ ["none", "skip", "follow"] then
+        (match rangeAnswer (op = "rdirrange") kind with
+          | some (ec, n) => (match makeRange ec n with | .inl _ => "failure" | .inr n => s!"success {n}")
+          | none => "bad-op")
+      else "bad-op"
+    else if op = "path" then
+      (match payload kind with
+        | some p =>
+          (match opt with
+            | "rmext" => "s:" ++ String.ofList (Path.removeExtension p)
+            | "ext" => "s:" ++ String.ofList (Path.extension p)
+            | "extnodot" => (match Path.extensionWithoutDot p with | .ok r => "s:" ++ String.ofList r | .error e => e.name)
+            | "stem" => "s:" ++ String.ofList (Path.stem p)
+            | "normalize" => "s:" ++ String.ofList (Path.normalize p)
+            | "nsub" => toString (Path.numSubpaths p)
+            | "tostring" => "s:" ++ String.ofList (Path.pathToString p)
+            | _ => "bad-op")
+        | none => "bad-op")
+    else if op = "replext" then
+      (match payload opt, payload kind with
+        | some p, some e => "s:" ++ String.ofList (Path.replaceExtension p e)
+        | _, _ => "bad-op")
+    else if op = "stripprefix" then
+      (match payload opt, payload kind with
+        | some pre, some p =>
+          (match Path.stripPrefix pre p with
+            | .ok r => "s:" ++ String.ofList r
+            | .error .oob => "unsafe"           -- outside the documented precondition: the harness does not call
+            | .error e => e.name)
+        | _, _ => "bad-op")
+    else if op = "args" ∨ op = "args2" then
+      (match opt.toInt? with
+        | some argc =>
+          let argv := (splitList kind).map String.toList
+          if argc < 0 ∨ argc.toNat ≠ argv.length then "bad-op"
+          else
+            (match (if op = "args" then args argc argv else argsFromSecond argc argv) with
+              | .ok r => s!"{r.length} " ++ (if r.isEmpty then "_" else ",".intercalate (r.map String.ofList))
+              | .error e => e.name)
+        | none => "bad-op")
+    else if op = "flagname" then
+      (match payload kind with
+        | some name =>
+          if opt = "short" ∨ opt = "long" then
+            let n := flagName name (opt = "short")
+            "s:" ++ String.ofList n ++ " " ++
+              (match isFlag n with
+                | .ok none => "none"
+                | .ok (some (sh, nm)) => (if sh then "short" else "long") ++ " s:" ++ String.ofList nm
+                | .error e => e.name)
+          else "bad-op"
+        | none => "bad-op")
+    else if op = "cast" then
+      (match clsOf opt, clsOf kind with
+        | some target, some dyn =>
+          if dyn = .iface ∨ (target = .base) then "bad-op"
+          else (match dynamicCast dyn target with | some _ => "some" | none => "none")
+        | _, _ => "bad-op")
+    else if op = "extract" ∨ op = "extractg" then
+      (match payload kind with
+        | some src =>
+          let codes := src.map Char.toNat
+          if opt = "string" then (match extractString codes with | some w => "some " ++ hexOut w | none => "none")
+          else
+            (match extractDest opt with
+              | some d => (match Fcppt.C15.extractFromString d codes with | some v => s!"some {v}" | none => "none")
+              | none => "bad-op")
+        | none => "bad-op")
+    else Fcppt.C06.Drv.handle toks
+  | ["getenv", n] =>
+    match payload n with
+    | some name => (match getenv harnessEnv name with | some v => "some s:" ++ String.ofList v | none => "none")
+    | none => "bad-op"
+  | ["strerror", n] => if n.toInt?.isSome then "ok" else "bad-op"
+  | [op, tt] =>
+    if op = "gmtime" ∨ op = "localtime" then
+      (match tt.toInt? with
+        | some t =>
+          if t < -(2 : Int) ^ 63 ∨ t ≥ (2 : Int) ^ 63 then "bad-op"
+          else
+            (match timeGmtime (gmtimeR t) with
+              | .ok r => s!"ok {r.year} {r.mon} {r.mday} {r.hour} {r.min} {r.sec}"
+              | .error e => e.name)
+        | none => "bad-op")
+    else if op = "typename" then
+      (match payload tt with
+        | some n => (match demangleAnswer (String.ofList n) with | some r => r | none => "bad-op")
+        | none => "bad-op")
+    else if op = "typeinfo" then (if tt ∈ ["int", "string", "d3", "lambda"] then "ok" else "bad-op")
+    else Fcppt.C06.Drv.handle toks
   | _ => Fcppt.C06.Drv.handle toks
 
 def main : IO Unit := Proto.run handle
